@@ -95,7 +95,10 @@ def run(ctx, chk):
                    'record drift = %s; drift field assigned on this path: %s' % (fmt(f[3])[-40:], drift_f in i['stores']))
             # ---- H published status
             form = published_form(f[5])
-            okh = form[0] == 'fsm' and 'apply_chrony' in form[1] or form == ('const', 'Unknown')
+            # the published value() is taken from the state the FSM step of this path produced
+            from_step = any(s_ is not None and any(x == s_ for x in psi.walk(f[5])) for s_ in i['steps']) or \
+                (any(s_ is None for s_ in i['steps']) and form[0] == 'fsm')
+            okh = (form[0] == 'fsm' and from_step) or form == ('const', 'Unknown')
             chk.ob('C08.H', 'published-status:%s' % form[0], okh, where, 'published status = %s' % str(form)[:160])
     for name in list(MISSING) + ['ClockErrorBoundData', 'ThreadAbort']:
         chk.ob('C08.F', 'dispatch:%s:handled' % name, name in seen, where0,
@@ -120,6 +123,8 @@ def run(ctx, chk):
                    (values.get(s), inp, (tgt or 'None').split('::')[-1], values.get(tgt)))
     chk.floor('C08.D', 'FSM rows', n_rows, 9)
     ctor, fields, init = m.initial_state(chk)
+    if init is not None and init[1] is None:
+        init = (init[0], values.get(init[0]))
     chk.ob('C08.D', 'fsm:initial-unknown', init is not None and init[1] == 'Unknown', where0, 'initial FSM state: %s' % (init,))
     if fields is not None:
         chk.ob('C08.C', 'drift:constructor-parameter', fields.get(drift_f, ('x',))[0] == 'sym', where0,
